@@ -343,9 +343,10 @@ def run_rotdpp_monotone(rep, tier, p, q):
                   key="rotdpp-not-monotone", timeout_ms=30000)
 
 
-def run_process_orient_process(rep, tier, method):
-    """processing a recording, re-orienting it in place and processing it again gives the result of processing a freshly
-    built recording that holds the re-oriented samples (nothing of the first run may survive in the objects)."""
+def run_process_orient_process(rep, tier, method, op="orient"):
+    """processing a recording, changing it in place through a public method (re-orienting; detrending; tapering) and processing
+    it again gives the result of processing a freshly built recording that holds the changed samples (nothing of the first run
+    may survive in the objects)."""
     from harness import C09
     Ld = LD()
     P, S = Ld["processing"], Ld["settings"]
@@ -355,7 +356,12 @@ def run_process_orient_process(rep, tier, method):
         s, r = mk(Ld, ctx, 3, 0.0)
         st = C09.make_settings(S, method, 4)
         C01.process(P, [r], st)
-        r.orient_sensor_to(target)
+        if op == "orient":
+            r.orient_sensor_to(target)
+        elif op == "detrend":
+            r.detrend("linear")
+        else:
+            r.window("tukey", 0.3)
         again = C09.out_terms(C01.process(P, [r], st))
         comps = {c: np.array(list(getattr(r, c).amplitude), dtype=object) for c in ("ns", "ew", "vt")}
         fresh = PP.mkrec(Ld, ctx, "f", 3, DT, comps=comps, degrees=r.degrees_from_north)
@@ -364,8 +370,8 @@ def run_process_orient_process(rep, tier, method):
 
     for ctx, (s, again, ref) in rep.explore(run, max_paths=40 if tier == "quick" else 200, timeout_ms=5000):
         bad = [z3.BoolVal(len(again) != len(ref))] + [z3.BoolVal(not (is_nan(x) and is_nan(y))) if (is_nan(x) or is_nan(y)) else Sym.lift(x) != Sym.lift(y) for x, y in zip(again, ref)]
-        rep.prove(ctx, f"{method}: process, orient_sensor_to({target}), process again = process of a fresh recording holding the re-oriented samples", bad,
-                  witness=wit(s, {"what": "process-orient-process", "method": method, "target": target}), key="stale-after-reorient",
+        rep.prove(ctx, f"{method}: process, {op} in place, process again = process of a fresh recording holding the changed samples", bad,
+                  witness=wit(s, {"what": "process-orient-process", "method": method, "target": target, "op": op}), key="stale-after-reorient" if op == "orient" else "stale-after-in-place-change",
                   shape=[z3.And(v.e >= qval(0.5) + qval(0.25) * j, v.e <= 3 + qval(0.25) * j) for c in ("ns", "ew", "vt") for j, v in enumerate(s[c])])   # witness shaping: no zero spectra
 
 
@@ -425,19 +431,25 @@ def replay(spec):
         try:
             fcs, bws = C01.CFG[4]
             kw = dict(window_type_and_width=["tukey", 0.3], smoothing=dict(operator="linear_triangular", bandwidth=bws["linear_triangular"], center_frequencies_in_hz=list(fcs)))
-            mkst = {"single_azimuth": lambda: hv.HvsrTraditionalSingleAzimuthProcessingSettings(azimuth_in_degrees=30.0, **kw),
+            mkst = {"geometric_mean": lambda: hv.HvsrTraditionalProcessingSettings(method_to_combine_horizontals="geometric_mean", **kw),
+                    "single_azimuth": lambda: hv.HvsrTraditionalSingleAzimuthProcessingSettings(azimuth_in_degrees=30.0, **kw),
                     "azimuthal": lambda: hv.HvsrAzimuthalProcessingSettings(azimuths_in_degrees=[0.0, 60.0], **kw),
                     "rotdpp": lambda: hv.HvsrTraditionalRotDppProcessingSettings(azimuths_in_degrees=[0.0, 60.0], ppth_percentile_for_rotdpp_computation=50.0, **kw)}[spec["method"]]
             flat = lambda res: np.concatenate([np.asarray(h.amplitude, dtype=float).ravel() for h in (res.hvsrs if hasattr(res, "hvsrs") else [res])])
             r = mkr(0.0)
             st = mkst()
             hv.process([r], st)
-            r.orient_sensor_to(spec["target"])
+            if spec.get("op", "orient") == "orient":
+                r.orient_sensor_to(spec["target"])
+            elif spec["op"] == "detrend":
+                r.detrend("linear")
+            else:
+                r.window("tukey", 0.3)
             again = flat(hv.process([r], st))
             fresh = hvsrpy.SeismicRecording3C(*[hvsrpy.TimeSeries(np.array(getattr(r, c).amplitude, dtype=float), DT) for c in ("ns", "ew", "vt")], degrees_from_north=r.degrees_from_north)
             ref = flat(hv.process([fresh], mkst()))
-            return {"reproduced": not np.allclose(again, ref, rtol=1e-9, equal_nan=True), "key": "stale-after-reorient",
-                    "detail": f"{spec['method']}: process / orient_sensor_to({spec['target']}) / process gives {again.tolist()}, a fresh recording with the same samples {ref.tolist()}"[:400]}
+            return {"reproduced": not np.allclose(again, ref, rtol=1e-9, equal_nan=True), "key": "stale-after-reorient" if spec.get("op", "orient") == "orient" else "stale-after-in-place-change",
+                    "detail": f"{spec['method']}: process / {spec.get('op', 'orient')} in place ({spec['target']}) / process gives {again.tolist()}, a fresh recording with the same samples {ref.tolist()}"[:400]}
         finally:
             C01._restore(P, T, saved)
     if what in ("periodic", "rotdpp"):
